@@ -23,14 +23,14 @@ func init() {
 		Technique: "decision table of the address classifier against the mapped-address-safe classifier set, SSA provenance of dialled addresses and vetting-loop dominance, wiring audit of the outbound HTTP client",
 		Explanation: "Decides on daisen2/internal/httpapi/chat.go: (classifier) isInternalIP answers 'internal' whenever any of the five classes loopback, private, unspecified, link-local unicast, link-local multicast holds, using classifiers that treat IPv4-mapped IPv6 forms like their IPv4 address (net.IP methods; net/netip methods only where they unmap themselves or after Unmap()); " +
 			"(dial) guardedDialContext dials either under the explicit bypass (private hosts allowed / proxy target) or an address built from an element of the very slice of resolved IPs that a completed vetting loop (return on isInternalIP) has checked — never the host name again; (url) guardLLMURL returns nil only when bypassed or after every resolved IP passed the classifier; " +
-			"(wiring) the only http.Client in the package is guardedLLMClient, whose transport dials through guardedDialContext, proxies through proxyForLLMRequest (which re-checks the URL) and whose CheckRedirect re-checks each redirect target with guardLLMURL; every outbound Do uses that client.",
+			"(wiring) the only http.Client in the package is guardedLLMClient, whose transport dials through guardedDialContext and has no other dial hook installed (Dial/DialTLS/DialTLSContext replace DialContext for https or legacy dials), proxies through proxyForLLMRequest (which re-checks the URL) and whose CheckRedirect re-checks each redirect target with guardLLMURL; every outbound Do uses that client.",
 		NotDecided:  "the standard library's classification of individual addresses; behaviour of an external proxy.",
 		Assumptions: []string{"net.IP classifier methods handle 4-byte, 16-byte and IPv4-mapped forms alike; netip.Addr.IsUnspecified does not unmap"},
 	}, runC38)
 	register("C39", PropertyMeta{
 		Technique: "who-may-call audit (no OS file API in the source tools), path-validation dominance for fs lookups with interprocedural argument tracing, SSA bound checks on archive reading, map-iteration determinism of archive writing",
 		Explanation: "Decides: (archive-only) the code tools and the trace source never call an os/ioutil/filepath file API — content comes only through io/fs functions over Source.FS(); (valid-path) every io/fs lookup (ReadFile, ReadDir, Stat, Open) in the tools whose path derives from a string parameter is dominated by fs.ValidPath on that path, or receives it from callers that validated it or derived it from fs entries; archive entries enter the in-memory tree only under fs.ValidPath; " +
-			"(bounded-read) ReadArchive reads entry bytes only through io.LimitReader with a constant bound, stores an entry only after the per-file and total caps held, and sizes no allocation from the archive header; (deterministic-write) WriteArchive iterates the file map in sorted order and writes no clock or random value.",
+			"(bounded-read) ReadArchive reads entry bytes only through io.LimitReader with a constant bound, stores an entry only after the per-file cap and the total cap held, the tested total being running total + len(this entry) on every path, and sizes no allocation from the archive header; (deterministic-write) WriteArchive iterates the file map in sorted order and writes no clock or random value.",
 		NotDecided:  "tar/gzip library behaviour; HTTP routing.",
 		Assumptions: []string{"fs.ValidPath rejects absolute and parent-escaping paths"},
 	}, runC39)
@@ -516,6 +516,7 @@ func runC38(c *Ctx) {
 	}
 	wired := map[string]string{}
 	nClients := 0
+	otherDial := ""
 	scan := func(fn *ssa.Function) {
 		for _, b := range fn.Blocks {
 			for _, in := range b.Instrs {
@@ -529,6 +530,16 @@ func runC38(c *Ctx) {
 				fo := FieldOf(st.Addr)
 				if fo == nil {
 					continue
+				}
+				if fo.Pkg() != nil && fo.Pkg().Path() == "net/http" {
+					switch fo.Name() {
+					case "Dial", "DialTLS", "DialTLSContext":
+						// net/http uses these INSTEAD of DialContext (DialTLS* for every
+						// direct https request): whatever is installed here dials unvetted
+						if cst, isC := st.Val.(*ssa.Const); !isC || !cst.IsNil() {
+							otherDial += fo.Name() + " (" + p.Rel(st.Pos()) + "); "
+						}
+					}
 				}
 				switch fo.Name() {
 				case "DialContext", "Proxy", "CheckRedirect":
@@ -565,6 +576,8 @@ func runC38(c *Ctx) {
 	}
 	_ = initFn
 	c.Check(wired["DialContext"] == "guardedDialContext", "wiring", "guardedLLMClient.Transport.DialContext", token.NoPos, "the transport dials through guardedDialContext", "the outbound client's transport does not dial through guardedDialContext (found "+wired["DialContext"]+")")
+	c.Check(otherDial == "", "wiring", "guardedLLMClient.Transport#other-dial-hooks", token.NoPos, "no Dial/DialTLS/DialTLSContext hook is installed beside the guarded DialContext",
+		"the package installs another dial hook on an http.Transport: "+otherDial+"net/http uses DialTLS/DialTLSContext instead of DialContext for every direct https request (and Dial as the legacy fallback), so those connections are made without the dial-time address vetting and without pinning to the vetted address")
 	c.Check(wired["Proxy"] == "proxyForLLMRequest", "wiring", "guardedLLMClient.Transport.Proxy", token.NoPos, "proxied requests are re-checked", "the outbound client's proxy hook is not proxyForLLMRequest (found "+wired["Proxy"]+")")
 	c.Check(wired["CheckRedirect"] == "guardLLMURL", "wiring", "guardedLLMClient.CheckRedirect", token.NoPos, "each redirect target is re-checked with guardLLMURL", "redirect targets are not re-checked with guardLLMURL")
 	c.Check(nClients == 1, "wiring", "http.Client-instances", token.NoPos, "exactly one http.Client is constructed in the package", itoa(nClients)+" http.Client values are constructed in the package: an unguarded client could be used for outbound calls")
@@ -896,6 +909,7 @@ func runC39(c *Ctx) {
 			}
 		}
 		why := ""
+		totalWhy := ""
 		if tr == nil {
 			why = "tar reader not found"
 		}
@@ -968,9 +982,24 @@ func runC39(c *Ctx) {
 								continue
 							}
 						}
-						totalCap = true
+						// the running total that is tested must include this very entry on
+						// every path: total + len(<the value being kept>)
+						if add, isAdd := stripConv(bo.X).(*ssa.BinOp); isAdd && add.Op == token.ADD {
+							for _, opnd := range []ssa.Value{add.X, add.Y} {
+								if cl, isCall := stripConv(opnd).(*ssa.Call); isCall {
+									if bi, isB := cl.Call.Value.(*ssa.Builtin); isB && bi.Name() == "len" && len(cl.Call.Args) == 1 && cl.Call.Args[0] == x.Value {
+										totalCap = true
+									}
+								}
+							}
+						}
+						if !totalCap {
+							totalWhy = "the total that is tested against the archive cap (" + p.Rel(bo.Pos()) + ") is not 'running total + len(entry)' for the entry being kept on every path: some entries are kept without being charged, so the decompressed total held in memory is no longer bounded by the cap"
+						}
 					}
-					if !fileCap || !totalCap {
+					if fileCap && !totalCap && totalWhy != "" {
+						why = totalWhy
+					} else if !fileCap || !totalCap {
 						why = "an archive entry is kept without the per-file and the total decompressed-size caps having been tested"
 					}
 				}
